@@ -13,7 +13,7 @@ open Ptk.Py
 def BufClean (b : Buf) : Prop := ∀ pc ∈ b, Clean pc.2.char
 
 /-- the side conditions, bundled -/
-structure TableOk (m : Table) (wc : Char → Int) : Prop where
+structure TableOk (m : Table) (wc : CP → Int) : Prop where
   cov : coversControls m = true
   pr : valuesPrintable m = true
   wp : valuesWidthPos m wc = true
@@ -58,7 +58,7 @@ theorem eraseNeighbours_clean (cfg : CopyCfg) (ht : TableOk cfg.m cfg.wc) {b : B
     · exact bufSet_clean ih (emptyCell_clean cfg ht)
 
 theorem mergeInto_clean (cfg : CopyCfg) (ht : TableOk cfg.m cfg.wc) (hd : Clean cfg.dflt.char)
-    {b : Buf} (hb : BufClean b) (x y : Int) {c : Char} {style : Text}
+    {b : Buf} (hb : BufClean b) (x y : Int) {c : CP} {style : Text}
     (h0 : (mkCell cfg.m cfg.wc [c] style).width = 0) (pw : Nat) :
     BufClean (mergeInto cfg b x y c pw) := by
   unfold mergeInto
@@ -68,7 +68,7 @@ theorem mergeInto_clean (cfg : CopyCfg) (ht : TableOk cfg.m cfg.wc) (hd : Clean 
   · exact hb
 
 theorem storeChar_clean (cfg : CopyCfg) (ht : TableOk cfg.m cfg.wc) (hd : Clean cfg.dflt.char)
-    {st : CopySt} (hb : BufClean st.buf) (c : Char) (style : Text) :
+    {st : CopySt} (hb : BufClean st.buf) (c : CP) (style : Text) :
     BufClean (storeChar cfg st (mkCell cfg.m cfg.wc [c] style) c).buf := by
   unfold storeChar
   simp only
@@ -86,7 +86,7 @@ theorem storeChar_clean (cfg : CopyCfg) (ht : TableOk cfg.m cfg.wc) (hd : Clean 
 
 theorem putChar_clean (cfg : CopyCfg) (ht : TableOk cfg.m cfg.wc) (hd : Clean cfg.dflt.char)
     (onWrap : CopySt → CopySt) (hw : ∀ s, BufClean s.buf → BufClean (onWrap s).buf)
-    {st : CopySt} (hb : BufClean st.buf) (style : Text) (c : Char) :
+    {st : CopySt} (hb : BufClean st.buf) (style : Text) (c : CP) :
     BufClean (putChar cfg onWrap st style c).st.buf := by
   unfold putChar
   simp only
@@ -98,7 +98,7 @@ theorem putChar_clean (cfg : CopyCfg) (ht : TableOk cfg.m cfg.wc) (hd : Clean cf
   · exact storeChar_clean cfg ht hd hb c style
 
 theorem plainText_clean (cfg : CopyCfg) (ht : TableOk cfg.m cfg.wc) (hd : Clean cfg.dflt.char)
-    (style : Text) (t : Text) {st : CopySt} (hb : BufClean st.buf) :
+    (style : Text) (t : CText) {st : CopySt} (hb : BufClean st.buf) :
     BufClean (plainText cfg style st t).1.buf := by
   induction t generalizing st with
   | nil => exact hb
@@ -136,7 +136,7 @@ theorem drawPrefix_clean (cfg : CopyCfg) (ht : TableOk cfg.m cfg.wc) (hd : Clean
   · exact plainFrags_clean cfg ht hd _ (st := { st with x := _ }) hb
 
 theorem inputText_clean (cfg : CopyCfg) (ht : TableOk cfg.m cfg.wc) (hd : Clean cfg.dflt.char)
-    (lineno : Nat) (style : Text) (t : Text) {s : InSt} (hb : BufClean s.st.buf) :
+    (lineno : Nat) (style : Text) (t : CText) {s : InSt} (hb : BufClean s.st.buf) :
     BufClean (inputText cfg lineno style s t).1.st.buf := by
   induction t generalizing s with
   | nil => exact hb
@@ -202,11 +202,11 @@ variable (cfg : CopyCfg) (Q : Zwe → Prop)
 /-- `Q` is kept by storing the text of the (marked) fragment `f` -/
 def KeepsOn (f : Frag) : Prop := isZwe f.1 = true → ∀ z p, Q z → Q (zweAppend z p f.2)
 
-theorem storeChar_zwe (st : CopySt) (cell : Cell) (c : Char) : (storeChar cfg st cell c).zwe = st.zwe := by
+theorem storeChar_zwe (st : CopySt) (cell : Cell) (c : CP) : (storeChar cfg st cell c).zwe = st.zwe := by
   unfold storeChar; simp only; split <;> rfl
 
 theorem putChar_zwe (onWrap : CopySt → CopySt) (hw : ∀ s, Q s.zwe → Q (onWrap s).zwe)
-    (st : CopySt) (h : Q st.zwe) (style : Text) (c : Char) : Q (putChar cfg onWrap st style c).st.zwe := by
+    (st : CopySt) (h : Q st.zwe) (style : Text) (c : CP) : Q (putChar cfg onWrap st style c).st.zwe := by
   unfold putChar
   simp only
   split
@@ -216,7 +216,7 @@ theorem putChar_zwe (onWrap : CopySt → CopySt) (hw : ∀ s, Q s.zwe → Q (onW
     · simpa [storeChar_zwe] using h1
   · simpa [storeChar_zwe] using h
 
-theorem plainText_zwe (style : Text) (t : Text) (st : CopySt) (h : Q st.zwe) :
+theorem plainText_zwe (style : Text) (t : CText) (st : CopySt) (h : Q st.zwe) :
     Q (plainText cfg style st t).1.zwe := by
   induction t generalizing st with
   | nil => exact h
@@ -257,7 +257,7 @@ theorem drawPrefix_zwe (hp : PreKeeps cfg Q) (lineno wrapCount : Nat) (st : Copy
   · rename_i f hf
     exact plainFrags_zwe cfg Q _ (hp f hf lineno wrapCount) { st with x := _ } h
 
-theorem inputText_zwe (hp : PreKeeps cfg Q) (lineno : Nat) (style : Text) (t : Text) (s : InSt)
+theorem inputText_zwe (hp : PreKeeps cfg Q) (lineno : Nat) (style : Text) (t : CText) (s : InSt)
     (h : Q s.st.zwe) : Q (inputText cfg lineno style s t).1.st.zwe := by
   induction t generalizing s with
   | nil => exact h
@@ -289,7 +289,7 @@ theorem inputFrags_zwe (hp : PreKeeps cfg Q) (lineno : Nat) (frs : List Frag)
       · exact h1
       · exact ih hrest _ h1
 
-theorem hscrollDrop_sub (dw : Text → Nat) (h : Int) (l : List Frag) :
+theorem hscrollDrop_sub (dw : CText → Nat) (h : Int) (l : List Frag) :
     ∀ f ∈ (hscrollDrop dw h l).2, f ∈ l := by
   induction l generalizing h with
   | nil => simp [hscrollDrop]
@@ -356,7 +356,7 @@ theorem copyBody_zwe_unmarked (cfg : CopyCfg) (buf : Buf) (zwe : Zwe) (lines : L
       rw [h1] at hz; simp [hl line hline' f hf] at hz
   · rfl
 
-theorem zweFind_mem {z : Zwe} {p : Pos} {t : Text} (h : zweFind? z p = some t) : (p, t) ∈ z := by
+theorem zweFind_mem {z : Zwe} {p : Pos} {t : CText} (h : zweFind? z p = some t) : (p, t) ∈ z := by
   induction z with
   | nil => simp [zweFind?] at h
   | cons e rest ih =>
@@ -367,9 +367,9 @@ theorem zweFind_mem {z : Zwe} {p : Pos} {t : Text} (h : zweFind? z p = some t) :
     · simp [ih h]
 
 /-- every character of every zero-width escape satisfies `P` -/
-def ZweP (P : Char → Prop) (z : Zwe) : Prop := ∀ e ∈ z, ∀ c ∈ e.2, P c
+def ZweP (P : CP → Prop) (z : Zwe) : Prop := ∀ e ∈ z, ∀ c ∈ e.2, P c
 
-theorem zweAppend_P {P : Char → Prop} {z : Zwe} (hz : ZweP P z) (p : Pos) {t : Text} (ht : ∀ c ∈ t, P c) :
+theorem zweAppend_P {P : CP → Prop} {z : Zwe} (hz : ZweP P z) (p : Pos) {t : CText} (ht : ∀ c ∈ t, P c) :
     ZweP P (zweAppend z p t) := by
   intro e he c hc
   simp only [zweAppend, List.mem_cons] at he
@@ -385,7 +385,7 @@ theorem zweAppend_P {P : Char → Prop} {z : Zwe} (hz : ZweP P z) (p : Pos) {t :
 /-- **Origin of raw text.** Every character stored as a zero-width escape by `_copy_body` was
     there before or comes from the text of a fragment explicitly marked `[ZeroWidthEscape]`
     (`P` = "occurs in marked text"). -/
-theorem copyBody_zwe_origin (cfg : CopyCfg) (P : Char → Prop) (buf : Buf) (zwe : Zwe)
+theorem copyBody_zwe_origin (cfg : CopyCfg) (P : CP → Prop) (buf : Buf) (zwe : Zwe)
     (lines : List (List Frag)) (vscroll vscroll2 : Nat) (h0 : ZweP P zwe)
     (hl : ∀ line ∈ lines, ∀ f ∈ line, isZwe f.1 = true → ∀ c ∈ f.2, P c)
     (hp : ∀ pre, cfg.pre = some pre → ∀ ln wc, ∀ f ∈ pre ln wc, isZwe f.1 = true → ∀ c ∈ f.2, P c) :
@@ -407,27 +407,33 @@ theorem copyBody_zwe_origin (cfg : CopyCfg) (P : Char → Prop) (buf : Buf) (zwe
 
 def exCfg : CopyCfg :=
   { m := Gen.C10.displayMappings, wc := Gen.C10.wcwidth, printable := Gen.C10.isPrintable,
-    dflt := mkCell Gen.C10.displayMappings Gen.C10.wcwidth [' '] "[transparent]".toList,
+    dflt := mkCell Gen.C10.displayMappings Gen.C10.wcwidth [32] "[transparent]".toList,
     xpos := 0, ypos := 0, width := 6, height := 2, wrap := true, hscroll := 0, align := 0, pre := none }
 
 theorem exCfg_ok : TableOk exCfg.m exCfg.wc := ⟨gen_ok.1, gen_ok.2.1, gen_ok.2.2.1⟩
 
 def exLine : List Frag :=
-  [([], ['a', ESC, 'e', Char.ofNat 0x301, Char.ofNat 0x9b]), (zweMarker, [ESC, ']', '7', Char.ofNat 7]), ([], ['z'])]
+  [([], [0x61, ESC, 0x65, 0x301, 0x9b]), (zweMarker, [ESC, 0x5d, 0x37, 7]), ([], [0x7a])]
 
 -- cells written (newest first): "z" after the wrap, "<9b>", "e"+accent merged, "e", "^[", "a"
 example :
     (copyBody exCfg [] [] [exLine] 0 0).buf.map (fun pc => (pc.1, pc.2.char)) =
-      [((1, 4), ['z']), ((1, 3), []), ((1, 2), []), ((1, 1), []), ((1, 0), ['<', '9', 'b', '>']),
-       ((0, 3), ['e', Char.ofNat 0x301]), ((0, 4), [Char.ofNat 0x301]), ((0, 3), ['e']),
-       ((0, 2), []), ((0, 1), ['^', '[']), ((0, 0), ['a'])] := by
+      [((1, 4), [0x7a]), ((1, 3), []), ((1, 2), []), ((1, 1), []), ((1, 0), [0x3c, 0x39, 0x62, 0x3e]),
+       ((0, 3), [0x65, 0x301]), ((0, 4), [0x301]), ((0, 3), [0x65]),
+       ((0, 2), []), ((0, 1), [0x5e, 0x5b]), ((0, 0), [0x61])] := by
   decide +kernel
 
-example : (copyBody exCfg [] [] [exLine] 0 0).zwe = [((1, 4), [ESC, ']', '7', Char.ofNat 7])] := by decide +kernel
+example : (copyBody exCfg [] [] [exLine] 0 0).zwe = [((1, 4), [ESC, 0x5d, 0x37, 7])] := by decide +kernel
 
 example : BufClean (copyBody exCfg [] [] [exLine] 0 0).buf :=
   copyBody_clean exCfg exCfg_ok ((cleanB_iff _).mp (by decide +kernel)) [] [] (by intro pc h; simp at h) _ 0 0
 
+
+-- lone surrogates (U+DC9B = what `os.fsdecode` makes of the byte 0x9b) are copied as ordinary
+-- width-1 characters: nothing in the table maps them, and they are not control characters
+example :
+    (copyBody exCfg [] [] [[([], [0xDC9B, 0x33, 0xD800])]] 0 0).buf.map (fun pc => (pc.1, pc.2.char)) =
+      [((0, 2), [0xD800]), ((0, 1), [0x33]), ((0, 0), [0xDC9B])] := by decide +kernel
 
 -- observed quirk, exhibited by the model and replayed on the real code by the harness
 -- (corpus/C10/hscroll-cuts-marked-escape.json): horizontal scrolling explodes ALL fragments,
@@ -436,7 +442,7 @@ example : BufClean (copyBody exCfg [] [] [exLine] 0 0).buf :=
 -- with its display width 2 in the skip loop, so `x` ends at column 1).
 example :
     (copyBody { exCfg with hscroll := 1, wrap := false } [] []
-      [[(zweMarker, [ESC, ']', '7', Char.ofNat 7]), ([], ['z'])]] 0 0).zwe =
-      [((0, 1), [']', '7', Char.ofNat 7]), ((0, 1), [']', '7']), ((0, 1), [']'])] := by decide +kernel
+      [[(zweMarker, [ESC, 0x5d, 0x37, 7]), ([], [0x7a])]] 0 0).zwe =
+      [((0, 1), [0x5d, 0x37, 7]), ((0, 1), [0x5d, 0x37]), ((0, 1), [0x5d])] := by decide +kernel
 
 end Ptk.C10
